@@ -45,14 +45,22 @@ structure Alloc where
 
 def Alloc.allPerRun : Alloc := ⟨true, true, true, true, true⟩
 
-/-- From the facts of tools/factgen/c09.go.  `cap` is per run exactly when the syntactic
-    write-set `sharedWrites` (captured constructor variables, runner-receiver fields, package
-    variables written by run-time code) is empty: then every other written location is a
-    local of a function invocation that belongs to one run. -/
-def allocOf (runAllocsCM channelsPerRun runAllocsTM runBuildsOptMap stateViaRunCtx : Bool)
-    (sharedWrites : List String) : Alloc :=
-  { cm := runAllocsCM && channelsPerRun, tm := runAllocsTM, opt := runBuildsOptMap,
-    st := stateViaRunCtx, cap := sharedWrites.isEmpty }
+/-- From the facts of tools/factgen/c09.go.
+    `cm` is per run when `run` binds a channel manager built by `initChannelManager`, whose
+    literal holds a channel map made in that call (`cmFieldsFresh`) filled by builders that
+    return fresh channels.  `tm` is per run when `run` binds a task manager built by
+    `initTaskManager` AND the literal's completion queue is allocated in that call
+    (`l: list.New()`, `done: make(chan …)`, fresh mutex: `tmQueueFresh`) – a queue taken from a
+    pool is shared *in time* with the runs that used it before: their straggling node
+    goroutines still hold it.  `cap` is per run exactly when the syntactic write-set
+    `sharedWrites` (captured constructor variables, shared-receiver fields, package variables,
+    sync.Pool / sync.Map traffic) and `nonFreshPerRunFields` are empty: then every other
+    written location is a local of a function invocation that belongs to one run. -/
+def allocOf (runAllocsCM channelsPerRun cmFieldsFresh runAllocsTM tmQueueFresh runBuildsOptMap
+    stateViaRunCtx : Bool) (sharedWrites nonFreshPerRunFields : List String) : Alloc :=
+  { cm := runAllocsCM && channelsPerRun && cmFieldsFresh, tm := runAllocsTM && tmQueueFresh,
+    opt := runBuildsOptMap, st := stateViaRunCtx,
+    cap := sharedWrites.isEmpty && nonFreshPerRunFields.isEmpty }
 
 /-- the heap: one shared cell group (the compiled object) and one private group per run -/
 structure Heap where
@@ -176,5 +184,16 @@ def directReturnStep (outcome : Nat → String) (i : Nat) (s : Slots) : Slots :=
   | 0 => { s with cap := outcome i, tm := 1 }
   | 1 => { s with cm := s.cap, tm := 2 }
   | _ => s
+
+/-! ### a recycled completion queue (eager Workflow, early return, straggling sibling)
+
+Slot `tm` abstracts the task manager's completion queue as the number of finished tasks
+parked in it.  A node goroutine of run `i` finishing = `tm := tm + 1` in the queue run `i`
+was given; the run loop of a run takes what it finds there as ITS completed task.  With a
+per-run queue a straggler of a finished run parks its task where nobody looks; with a queue
+recycled through the compiled object (`tm` shared) the next run finds it. -/
+def queueStep (isStraggler : Nat → Bool) (i : Nat) (s : Slots) : Slots :=
+  if isStraggler i then { s with tm := s.tm + 1 }                  -- executor: push the finished task
+  else { s with cm := s.cm ++ toString s.tm, tm := 0 }             -- run loop: take what is parked
 
 end EinoV.C09
